@@ -77,6 +77,12 @@ UNARY = [
     ['prefetch', 2, 2],
     ['prefetch', 2, 3],
     ['parmap', 'add10', 2, 2],
+    ['map_raise', 'FilterException', [1, 11, 5]],
+    ['map_raise', 'ValueError', [2, 12]],
+    ['catch', ['ValueError']],
+    ['prefetch_catch', 1, 2, True],
+    ['prefetch_catch', 2, 2, ['FilterException']],
+    ['prefetch_catch', 1, 1, ['ValueError', 'KeyError']],
 ]
 
 BINARY = [[kind, p] for kind in ('concat', 'intersperse', 'zip', 'key_zip')
@@ -105,6 +111,8 @@ CORE = [
     ['sort', None, False],
     ['shard', 2, 1],
     ['cache_eager'],
+    ['map_raise', 'FilterException', [1, 11, 5]],
+    ['prefetch_catch', 1, 2, True],
 ]
 
 FULL = UNARY + BINARY
